@@ -7,18 +7,22 @@ from tools.harness.lexh import enc, dec, dec_list
 ID = 'C04'
 TARGETS = ['MindsVerif.Props.C04']
 THEOREMS = ['MindsVerif.Props.C04.' + n for n in (
-    'C04_scan_quote', 'C04_decode_partial', 'C04_scan_dquote', 'C04_decode_dquote_partial',
-    'C04_decode_simple_partial', 'C04_encode_partial', 'C04_roundtrip_mindsdb_partial', 'C04_roundtrip_simple_partial',
-    'C04_witness_roundtrip', 'C04_codec_decode', 'C04_codec_encode', 'C04_codec_roundtrip', 'C04_identifier_partial',
-    'C04_identifier_mindsdb', 'C04_identifier_mysql', 'C04_identifier_sqlite',
-    'phi4h_mindsdb', 'phi4h_mysql', 'phi4h_sqlite', 'C04_integer', 'phi4_mindsdb', 'phi4_mysql', 'phi4_sqlite',
+    # main theorems for the live code (codec of /repo 2843e02; identifiers; integers)
+    'C04_codec_decode', 'C04_codec_encode', 'C04_codec_roundtrip', 'C04_scan_quote', 'C04_scan_dquote',
+    'C04_identifier_partial', 'C04_identifier_mindsdb', 'C04_identifier_mysql', 'C04_identifier_sqlite',
+    'C04_identifier_bq_generic', 'C04_identifier_bq_mindsdb', 'C04_identifier_bq_mysql', 'C04_identifier_bq_sqlite',
+    'phi4_mindsdb', 'phi4_mysql', 'phi4_sqlite', 'phi4h_mindsdb', 'phi4h_mysql', 'phi4h_sqlite', 'C04_integer',
+    # history / regression examples: the codec before 2843e02 (Model/Lex.lean)
+    'C04_decode_partial', 'C04_decode_dquote_partial', 'C04_decode_simple_partial', 'C04_encode_partial',
+    'C04_roundtrip_mindsdb_partial', 'C04_roundtrip_simple_partial', 'C04_witness_roundtrip',
     'C04_witness_edge', 'C04_witness_escbs', 'C04_witness_run', 'C04_witness_simple',
     'C04_witness_encode', 'C04_witness_ident', 'C04_witness_backquote')]
 ASSUME = [
     'specification reading Denote (Model/Denote.lean): which escapes a literal has and what they denote (DESIGN.md §C04); '
     'mirrored independently in tools/harness/lexh.py and compared with the Lean text on every run',
-    'Python re backtracking on the pinned regexes, str.replace / strip, are hand-modelled (Model/Py.lean, Model/Lex.lean); '
-    'tie = exhaustive short-string correspondence with the real lexer and with parse_sql in the three dialects',
+    'Python re backtracking on the pinned regexes and the one-scan decoder / printer are hand-modelled (Model/Lex.lean matchers, '
+    'Model/Codec.lean; Model/Lex.lean codec = history); tie = exhaustive short-string correspondence with the real lexer and '
+    'with parse_sql in the three dialects; which model is tied is decided by the live tree (codecFixed, bqDoubled)',
     'float() / repr() of floats are not modelled: decimals are covered by the impl-level probe only',
     'the identifier theorem is about lexer + `id`/`identifier` grammar actions on a dotted path; the LALR context '
     '(select list) is covered by the probe through parse_sql',
@@ -44,6 +48,12 @@ def codec_fixed():
     return hasattr(U, 'unescape_string')
 
 
+def bq_doubled():
+    """docs/proposed_fixes/C04_4.diff is live: a back-quote inside an identifier part is written doubled"""
+    from mindsdb_sql.parser.ast.select import identifier as I
+    return '``' in I.path_str_parts_regex.pattern
+
+
 def literal_classes(dialect, q, items):
     """KF classes (predicates on the spec reading of the source literal)"""
     out = []
@@ -66,7 +76,7 @@ def ident_classes(dialect, parts, kfwords):
     out = []
     if any(p.upper() in kfwords.get(dialect, []) for p in parts):
         out.append('unreserved-keyword')
-    if any(p == '' or '`' in p for p in parts):
+    if any(p == '' or ('`' in p and not bq_doubled()) for p in parts):
         out.append('unrepresentable-part')
     return out
 
@@ -210,6 +220,7 @@ def run(chk):
             kfwords = k['signature']['words']
     FIXED = codec_fixed()               # which codec model is tied to the live code (Model/Lex vs Model/Codec)
     READ = 'read2 %s %s' if FIXED else 'read %s %s'
+    BQ = bq_doubled()                   # which identifier model is tied to the live code (Model/Lex vs Model/LexBq)
     n_scan = 5 if quick else 6          # exhaustive length for scanner / spec correspondence
     n_parse = 4 if quick else 5         # exhaustive length through parse_sql
     if broken and quick:
@@ -274,11 +285,11 @@ def run(chk):
                                     for _ in range(rngi.randint(1, 3))]))
     for d, parts in ident_cases:
         if all(p != '' and '\x00' not in p for p in parts):
-            ask(('parts', d, parts), 'parts %s %s' % (d, ',0,'.join(enc(p) for p in parts)))
+            ask(('parts', d, parts), '%s %s %s' % ('parts2' if BQ else 'parts', d, ',0,'.join(enc(p) for p in parts)))
     # raw identifier paths for the lexer-side model
     raw_paths = []
     for d in DIALECTS:
-        pool = keyword_words(S, d)[:40] + ['a', 'B1', '_x', '1a', 'x', 'Tables', 'status', 'persist_only']
+        pool = keyword_words(S, d)[:40] + ['a', 'B1', '_x', '1a', 'x', 'Tables', 'status', 'persist_only'] + ['a``b', '``', 'x``']
         for _ in range(400 if quick else 6000):
             segs = []
             for _ in range(rngi.randint(1, 3)):
@@ -286,7 +297,7 @@ def run(chk):
                 segs.append('`%s`' % w if rngi.random() < 0.4 else w)
             raw_paths.append((d, '.'.join(segs)))
     for d, p in raw_paths:
-        ask(('ident', d, p), 'ident %s %s' % (d, enc(p)))
+        ask(('ident', d, p), '%s %s %s' % ('ident2' if BQ else 'ident', d, enc(p)))
     # numbers
     num_texts = ['0', '7', '007', '10', '1.5', '1.50', '00.10', '1.', '12a', '1e5', '1.5e3', '123456789012345678901234567890',
                  '3.14159', '1..2', '1.a'] + [str(rngi.randrange(10 ** rngi.randint(1, 25))) for _ in range(100)] + \
